@@ -33,7 +33,8 @@ MODE = {'float': 'fp'}          # how a Python/numpy float meets a symbolic inte
 STATS = {'queries': 0, 'solver_s': 0.0, 'paths': 0, 'decisions': 0, 'unknown_branch': 0}
 DECIDE_TIMEOUT_MS = 20000
 OPT = {'optimistic': False,     # fork without asking the solver (infeasible paths are refuted by the final queries)
-       'lazy_bounds': False}    # index-in-bounds checks become recorded assertions instead of forks
+       'lazy_bounds': False,    # index-in-bounds checks become recorded assertions instead of forks
+       'symbolic_transc': False}  # XReal mode: sqrt/log/exp of concrete numbers stay uninterpreted terms (exact algebra)
 
 
 class Infeasible(BaseException):
@@ -1399,6 +1400,21 @@ def real_from_model(m, t):
 def bool_from_model(m, t):
     v = m.eval(t, model_completion=True)
     return z3.is_true(v)
+
+
+def uf_args(terms, name):
+    """arguments of every application of the uninterpreted function `name` inside the given z3 terms"""
+    seen, out, stack = set(), [], list(terms)
+    while stack:
+        t = stack.pop()
+        if t.get_id() in seen:
+            continue
+        seen.add(t.get_id())
+        if z3.is_app(t):
+            if t.decl().name() == name and t.num_args() >= 1:
+                out.append([t.arg(i) for i in range(t.num_args())])
+            stack.extend(t.children())
+    return out
 
 
 def value_from_model(m, x):
